@@ -257,6 +257,29 @@ def broadcast(rng, tier):
                 continue
             except Exception as e:
                 fails.append(dict(clause='mixed_regime_batch_raises', signature=f'{gname}.{oname}', error=f'{type(e).__name__}: {e}'[:160]))
+    # CUMULATIVE operations in every calling form (function, method, in-place method; left and right order; every batch axis) equal the
+    # item-by-item running product
+    for gname, gen in (('SO3', pp.randn_SO3), ('SE3', pp.randn_SE3), ('RxSO3', pp.randn_RxSO3), ('Sim3', pp.randn_Sim3)):
+        for shape, dim in (((3,), 0), ((2, 3), 1), ((3, 2), 0), ((2, 3, 2), 1), ((1,), 0)):
+            Xc = gen(*shape, dtype=d)
+            for left in (True, False):
+                items = [Xc.select(dim, 0)]
+                for k in range(1, shape[dim]):
+                    nx = Xc.select(dim, k); items.append(nx @ items[-1] if left else items[-1] @ nx)
+                expect = torch.stack([i_.tensor() for i_ in items], dim=dim)
+                forms = [('pp.cumprod', lambda z: pp.cumprod(z, dim, left=left)), ('X.cumprod', lambda z: z.cumprod(dim, left=left)), ('X.cumprod_', lambda z: z.cumprod_(dim, left=left)),
+                         ('pp.cumprod_', lambda z: pp.cumprod_(z, dim, left=left)), ('X.cumprod_ positional', lambda z: z.cumprod_(dim, left)), ('X.cumprod positional', lambda z: z.cumprod(dim, left))]
+                for fname, f in forms:
+                    try:
+                        z = Xc.clone(); out = f(z); evals += 1
+                        if not (tuple(out.shape) == tuple(expect.shape) and torch.allclose(out.tensor(), expect, atol=1e-10, rtol=1e-10)):
+                            fails.append(dict(clause='cumulative_product_itemwise', signature=f'{gname}.{fname} left={left}', shape=list(shape), dim=dim))
+                        elif fname.split()[0].endswith('_') and not torch.equal(z.tensor(), out.tensor()):
+                            fails.append(dict(clause='inplace_cumulative_product_updates_its_operand', signature=f'{gname}.{fname} left={left}', shape=list(shape), dim=dim))
+                        elif not fname.split()[0].endswith('_') and not torch.equal(z.tensor(), Xc.tensor()):
+                            fails.append(dict(clause='cumulative_product_leaves_its_operand', signature=f'{gname}.{fname} left={left}', shape=list(shape), dim=dim))
+                    except Exception as e:
+                        fails.append(dict(clause='cumulative_product_raises', signature=f'{gname}.{fname} left={left}', error=f'{type(e).__name__}: {e}'[:160]))
     return dict(evaluations=evals, distinct_nontrivial=pairs, rule='all ordered pairs of lshapes from the stated set that torch can broadcast; each (group, op, pair) is one evaluation; non-trivial: every pair',
                 bound='rank <= 3, extents {0,1,2,3}' + (' (quick: rank-3 shapes thinned)' if tier == 'quick' else ''), failures=fails[:8],
                 samples=[dict(pair=[[2, 1], [3]], ops=['Mul', 'Act', 'Act4', 'Adj', 'AdjT', 'Jinvp', 'Retr'])], exhaustive=(tier != 'quick'))
